@@ -126,7 +126,13 @@ def parseEnv? (kvs : List (String × String)) : Option Env := do
   let cbs ← (← lookup kvs "cbs").toNat?
   let hv ← (← lookup kvs "hv").toInt?
   let mat ← (← lookup kvs "mat").toInt?
-  pure { nextHeight := h, now := now, mtp := mtp, segwit := seg, csv := csv, cbWeight := cbw,
+  let mhp ← match lookup kvs "mhp" with
+    | some v => v.toNat?
+    | none => some 4722999750989709312
+  let bho ← match lookup kvs "bho" with
+    | some v => v.toNat?
+    | none => some 89
+  pure { minHighPrio := mhp, headerOverhead := bho, nextHeight := h, now := now, mtp := mtp, segwit := seg, csv := csv, cbWeight := cbw,
          cbSigCost := cbs, halving := hv, maturity := mat, minWeight := minW, maxWeight := maxW,
          prioSize := ps, minFreeFee := mf }
 
@@ -135,17 +141,49 @@ def joinWith {α : Type} (f : α → String) (xs : List α) : String :=
 
 def b2s (b : Bool) : String := if b then "1" else "0"
 
-def render (e : Env) (pool : List Tx) (t : Template) (pb : Bool) : String :=
+/-- insertion of a (pool index, fee, sigop cost) triple by pool index -/
+def insTriple (x : Nat × Int × Nat) : List (Nat × Int × Nat) → List (Nat × Int × Nat)
+  | [] => [x]
+  | y :: ys => if x.1 ≤ y.1 then x :: y :: ys else y :: insTriple x ys
+
+def sameKey (pool : List Tx) (a b : Nat) : Bool :=
+  match pool[a]?, pool[b]? with
+  | some x, some y => x.prio == y.prio && x.feePerKB == y.feePerKB
+  | _, _ => false
+
+/-- Canonical order of the rendered selection: the order among transactions whose queue keys
+(priority, fee rate) are genuinely equal is internal to the priority queue, so every maximal run of
+consecutive selected transactions with identical keys is sorted by pool index.  `run` is the current
+run (already sorted). -/
+def canonAux (pool : List Tx) : List (Nat × Int × Nat) → List (Nat × Int × Nat) → List (Nat × Int × Nat)
+  | [], run => run
+  | x :: rest, [] => canonAux pool rest [x]
+  | x :: rest, r :: run =>
+    if sameKey pool x.1 r.1 then canonAux pool rest (insTriple x (r :: run))
+    else (r :: run) ++ canonAux pool rest [x]
+
+/-- the template with selection, fees and sigop costs in canonical order (entry 0 stays) -/
+def canonTemplate (pool : List Tx) (t : Template) : Template :=
+  match t.fees, t.sigs with
+  | f0 :: fs, s0 :: ss =>
+    if fs.length = t.sel.length ∧ ss.length = t.sel.length then
+      let triples := canonAux pool (List.zip t.sel (List.zip fs ss)) []
+      { t with sel := triples.map (·.1), fees := f0 :: triples.map (·.2.1), sigs := s0 :: triples.map (·.2.2) }
+    else t
+  | _, _ => t
+
+def render (e : Env) (pool : List Tx) (t0 : Template) (pb : Bool) : String :=
+  let t := canonTemplate pool t0
   "ok sel=" ++ joinWith toString t.sel
   ++ " fees=" ++ joinWith toString t.fees
   ++ " sig=" ++ joinWith toString t.sigs
   ++ " cbv=" ++ toString t.cbValue
   ++ " wc=" ++ b2s t.commitment
-  ++ " w=" ++ toString (Spec.blockWeight e pool t)
-  ++ " chk=fee:" ++ b2s (Spec.accountingOk e pool t)
-  ++ ",sig:" ++ b2s (Spec.sigsOk e pool t)
-  ++ ",dep:" ++ b2s (Spec.depsBefore pool t.sel [])
-  ++ ",pay:" ++ b2s (Spec.accountingOk e pool t)
+  ++ " w=" ++ toString (Spec.blockWeight e pool t0)
+  ++ " chk=fee:" ++ b2s (Spec.accountingOk e pool t0)
+  ++ ",sig:" ++ b2s (Spec.sigsOk e pool t0)
+  ++ ",dep:" ++ b2s (Spec.depsBefore pool t0.sel [])
+  ++ ",pay:" ++ b2s (Spec.accountingOk e pool t0)
   ++ ",wc:1,meta:1,ccb:1,upd:1,pb:" ++ (if pb then "1" else "-")
 
 /-- `dp=` token: difficulty parameters in the order of C09's `Params`. -/
@@ -196,7 +234,8 @@ def diffObs (e : Env) (kvs : List (String × String)) : Option String :=
 /-- the selection part of the observation (op `two`) -/
 def renderCore (e : Env) (pool : List Tx) : Result → String
   | Result.err => "err"
-  | Result.ok t =>
+  | Result.ok t0 =>
+    let t := canonTemplate pool t0
     "sel=" ++ joinWith toString t.sel
     ++ " fees=" ++ joinWith toString t.fees
     ++ " sig=" ++ joinWith toString t.sigs
